@@ -9,6 +9,7 @@ import (
 )
 
 const VS = ModPath + "/vsupport."
+const VE = ModPath + "/vsupport/venv."
 
 func labelOf(it *Interp, v Value) string {
 	s, ok := v.(StrV)
